@@ -7,6 +7,7 @@ distinct names, unique addresses), every cursor state — i.e. every history of 
 every local node position and every outcome of the random `choose_multiple`.
 -/
 import Datacake.Lemmas.Selector
+import Datacake.Lemmas.SelectorSweep
 
 namespace Datacake.C15
 open Datacake.Selector
@@ -83,7 +84,9 @@ theorem selectN_sound (local_ localDc n total : Nat) (dcs : Dcs) (choice : List 
     layoutOf (selectN local_ localDc n total dcs choice).2 = layoutOf dcs ∧
     (∀ ns, (selectN local_ localDc n total dcs choice).1 = .ok ns →
       ns.Nodup ∧ local_ ∉ ns ∧ (∀ x ∈ ns, x ∈ allNodes dcs) ∧ ns.length = n) ∧
-    (selectN local_ localDc n total dcs choice).1 ≠ .panic := by
+    (selectN local_ localDc n total dcs choice).1 ≠ .panic ∧
+    (∀ live req, (selectN local_ localDc n total dcs choice).1 = .notEnough live req →
+      req = n ∧ ((allNodes dcs).filter (· ≠ local_)).length < n) := by
   unfold selectN
   simp only
   generalize hskip : decide (total - (match getDc dcs localDc with
@@ -125,18 +128,71 @@ theorem selectN_sound (local_ localDc n total : Nat) (dcs : Dcs) (choice : List 
   rw [if_neg (by simp [inv.alive])]
   have hsum := inv.sum
   simp only [List.length_nil, Nat.add_zero] at hsum
-  refine ⟨?_, ?_, ?_⟩
-  · split <;> exact inv.layout
+  have hselAll : ∀ x ∈ st.selected, x ∈ allNodes dcs := by
+    intro x hx
+    obtain ⟨d, _, c, hc, hxc⟩ := inv.fromP x hx
+    exact (mem_allNodes dcs x).2 ⟨(d, c), getDc_mem dcs d c hc, hxc⟩
+  have hall : allNodes st.dcs = allNodes dcs := allNodes_of_layout _ _ inv.layout
+  obtain ⟨s1, s2, s3, s4, s5, s6⟩ := sweep_spec local_ n st.dcs st.selected inv.nodup inv.noLocal
+  refine ⟨?_, ?_, ?_, ?_⟩
+  · split
+    · exact inv.layout
+    · split <;> exact s1.trans inv.layout
   · intro ns hns
     split at hns
     · rename_i hge
       injection hns with hns; subst hns
-      refine ⟨inv.nodup, inv.noLocal, ?_, by omega⟩
-      intro x hx
-      obtain ⟨d, _, c, hc, hxc⟩ := inv.fromP x hx
-      exact (mem_allNodes dcs x).2 ⟨(d, c), getDc_mem dcs d c hc, hxc⟩
-    · cases hns
-  · split <;> (intro h; cases h)
+      exact ⟨inv.nodup, inv.noLocal, hselAll, by omega⟩
+    · rename_i hlt
+      split at hns
+      · rename_i hge
+        injection hns with hns; subst hns
+        refine ⟨s2, s3, ?_, ?_⟩
+        · intro x hx
+          rcases s4 x hx with h | h
+          · exact hselAll x h
+          · rw [← hall]; exact h
+        · have := s6 (by omega); omega
+      · cases hns
+  · split
+    · intro h; cases h
+    · split <;> (intro h; cases h)
+  · intro live req hne
+    split at hne
+    · cases hne
+    · split at hne
+      · cases hne
+      · rename_i hlt hshort
+        injection hne with h1 h2
+        refine ⟨h2.symm, ?_⟩
+        have hcov := sweep_covers local_ n st.dcs st.selected inv.nodup inv.noLocal (by omega)
+        have hsub : ∀ x ∈ (allNodes dcs).filter (· ≠ local_), x ∈ (sweep local_ n st.dcs st.selected).2 := by
+          intro x hx
+          obtain ⟨hx1, hx2⟩ := List.mem_filter.1 hx
+          exact hcov x (by rw [hall]; exact hx1) (by simpa using hx2)
+        have := nodup_subset_length _ _ (List.Nodup.sublist List.filter_sublist wf.addrs) hsub
+        omega
+
+/-- **selectN_complete**: `select_n_nodes` reports `NotEnoughNodes` only when the layout really
+holds fewer than `n` nodes other than the local one — whatever the cursors and the random choice. -/
+theorem selectN_complete (local_ localDc n total : Nat) (dcs : Dcs) (choice : List Nat) (wf : WF dcs)
+    (hl : ∃ c, getDc dcs localDc = some c) (hchoice : GoodChoice dcs n choice) (live req : Nat)
+    (h : (selectN local_ localDc n total dcs choice).1 = .notEnough live req) :
+    req = n ∧ ((allNodes dcs).filter (· ≠ local_)).length < n :=
+  (selectN_sound local_ localDc n total dcs choice wf hl hchoice).2.2.2 live req h
+
+/-- Contrapositive, in the property's words: with at least `n` other live nodes the selection
+succeeds (and by `selectN_sound` returns exactly `n` distinct live peers). -/
+theorem selectN_enough (local_ localDc n total : Nat) (dcs : Dcs) (choice : List Nat) (wf : WF dcs)
+    (hl : ∃ c, getDc dcs localDc = some c) (hchoice : GoodChoice dcs n choice)
+    (henough : n ≤ ((allNodes dcs).filter (· ≠ local_)).length) :
+    ∃ ns, (selectN local_ localDc n total dcs choice).1 = .ok ns := by
+  cases hr : (selectN local_ localDc n total dcs choice).1 with
+  | ok ns => exact ⟨ns, rfl⟩
+  | notEnough live req =>
+    have := (selectN_complete local_ localDc n total dcs choice wf hl hchoice live req hr).2
+    omega
+  | panic => exact absurd hr (selectN_sound local_ localDc n total dcs choice wf hl hchoice).2.2.1
 
 /-! ### The other consistency levels -/
 
@@ -274,19 +330,19 @@ theorem select_sound (local_ localDc total : Nat) (dcs : Dcs) (lvl : Level) (cho
   have hnodupAll := wf.addrs
   cases lvl with
   | one =>
-    obtain ⟨h1, h2, h3⟩ := selectN_sound local_ localDc 1 total dcs choice wf hl
+    obtain ⟨h1, h2, h3, _⟩ := selectN_sound local_ localDc 1 total dcs choice wf hl
       (hchoice 1 (fun _ => rfl) (fun h => by cases h) (fun h => by cases h) (Or.inl rfl))
     exact ⟨h1, h3, fun ns hns => by
       obtain ⟨a, b, c, d⟩ := h2 ns hns
       exact ⟨a, b, c, by simp [required, d], fun _ => by simp [required, d]⟩⟩
   | two =>
-    obtain ⟨h1, h2, h3⟩ := selectN_sound local_ localDc 2 total dcs choice wf hl
+    obtain ⟨h1, h2, h3, _⟩ := selectN_sound local_ localDc 2 total dcs choice wf hl
       (hchoice 2 (fun h => by cases h) (fun _ => rfl) (fun h => by cases h) (Or.inr (Or.inl rfl)))
     exact ⟨h1, h3, fun ns hns => by
       obtain ⟨a, b, c, d⟩ := h2 ns hns
       exact ⟨a, b, c, by simp [required, d], fun _ => by simp [required, d]⟩⟩
   | three =>
-    obtain ⟨h1, h2, h3⟩ := selectN_sound local_ localDc 3 total dcs choice wf hl
+    obtain ⟨h1, h2, h3, _⟩ := selectN_sound local_ localDc 3 total dcs choice wf hl
       (hchoice 3 (fun h => by cases h) (fun h => by cases h) (fun _ => rfl) (Or.inr (Or.inr rfl)))
     exact ⟨h1, h3, fun ns hns => by
       obtain ⟨a, b, c, d⟩ := h2 ns hns
@@ -480,14 +536,16 @@ theorem setNodes_inv (a : Actor) (layout : List (Nat × List Nat)) :
 
 /-! ### Witnesses -/
 
-/-- Defect D11 (known finding): on a single data centre `{local, 11, 12}`, `One` followed by
-`Two` fails with `NotEnoughNodes {live: 1, required: 2}` although two other live nodes exist:
-the extra-node loop skips a candidate (local or already selected) without trying the next one. -/
+/-- Defect D11 of the pinned tree (fixed): on a single data centre `{local, 11, 12}`, `One` followed
+by `Two` failed with `NotEnoughNodes {live: 1, required: 2}` although two other live nodes exist:
+the extra-node loop skips a candidate (local or already selected) without trying the next one.
+`selectNLegacy` is the pinned function (no fallback sweep); the current one finds both. -/
 theorem extra_skip_counterexample :
-    let a0 := setNodes { local_ := 1, localDc := 0 } [(0, [1, 11, 12])]
-    let r1 := getNodes a0 .one false []
-    let r2 := getNodes r1.2 .two false []
-    r1.1 = .ok [11] ∧ r2.1 = .notEnough 1 2 := by
+    let dcs : Dcs := [(0, ⟨0, [1, 11, 12]⟩)]
+    let r1 := selectNLegacy 1 0 1 3 dcs []
+    let r2 := selectNLegacy 1 0 2 3 r1.2 []
+    r1.1 = .ok [11] ∧ r2.1 = .notEnough 1 2 ∧
+    (selectN 1 0 2 3 (selectN 1 0 1 3 dcs []).2 []).1 = .ok [12, 11] := by
   decide
 
 /-- Defect D10 of the pinned tree: a data centre that left the membership stays in the map and is
